@@ -298,6 +298,8 @@ def compare(res, c, label):
         cmd = c.lines[i].split(' ', 1)[0]
         t.add({'S_UTXOS': 'utxo', 'S_LOOKUP': 'utxo', 'S_STATE': 'utxo', 'S_HIST': 'history',
                'S_TXHASHES': 'files', 'S_HEADERS': 'files'}.get(cmd, 'op_' + c.kinds[i]))
+        if cmd in ('S_LOOKUP', 'Q_LOOKUP'):
+            t.add('lookup')          # DB.lookup_utxos: what the mempool resolves prevouts with (C08)
         return sorted(t)
 
     def case_for(i):
